@@ -33,7 +33,9 @@ theorem islice_append (ys zs : List Int) (a b c : Option Int) (bb : Int) (hb : b
   unfold islice
   rw [ha, hb, hc]
   simp only [Bool.or_self, Bool.false_eq_true, ↓reduceIte, Option.map_some]
-  rw [isliceGo_append _ _ (by omega) _ _ _ h]
+  split
+  · rfl
+  · rw [isliceGo_append _ _ (by omega) _ _ _ h]
 
 theorem nthNext_append (ys zs : List Int) (k : Nat) (h : k + 1 ≤ ys.length) :
     nthNext (ys ++ zs) k = nthNext ys k := by
